@@ -37,6 +37,7 @@ class Trace:
         self.tls = threading.local()
         self.enabled = True
         self.proxies = 0
+        self.sizes = []               # (kind, pickled size) of every message a connection put on the wire
         self.lock = threading.Lock()
 
     def stack(self):
@@ -130,12 +131,15 @@ def msg_line(m, with_pl=True):
 
 
 class _SockCapture:
-    def __init__(self, sock):
+    def __init__(self, sock, note=None):
         self._s = sock
         self.data = None
+        self._note = note
 
     def sendall(self, data):
         self.data = bytes(data)
+        if self._note is not None:
+            self._note(len(self.data) - 9)          # before the bytes leave: the receiver may finish first
         return self._s.sendall(data)
 
     def __getattr__(self, k):
@@ -390,7 +394,8 @@ def installed():
                 st[-1]["conn"] = cid
             hs = isinstance(message, M.QMI_InitialHandshakeMessage)
             rec = t.add(f"out {i} {cid} hs" if hs else f"out {i} {cid} {msg_line(message)}")
-            cap = _SockCapture(self._sock)
+            kind = "hs" if hs else describe(message)[0]
+            cap = _SockCapture(self._sock, None if hs else (lambda n, kind=kind: t.sizes.append((kind, n))))
             self._sock = cap
             try:
                 orig(self, message)
